@@ -61,7 +61,7 @@ package htmldoc
 // ---- C19: elements already emitted must not share a backing array with accumulators that keep growing ----
 //@ func (*Reader) traverseNodeFiltered
 //@   property C19, C15, C03
-//@   flags noalias, nosafety
+//@   flags noalias
 //@   fresh listItems
 // (C03/C19) the filtered walk collects into the caller's slice only: the reader's own (unfiltered) element list is not
 // touched, so an extraction in one mode cannot change what another extraction of the same reader returns
@@ -102,7 +102,6 @@ package htmldoc
 
 //@ func getTextContentRecursive
 //@   property C19
-//@   flags nosafety
 //@   requires !isnil(n) && !isnil(result)
 //@   ensures skipped_element_contributes_nothing: n.Type == html.ElementNode && shouldSkipElement(n.Data) ==> sameseq(result.String(), old(result.String()))
 //@   ensures text_is_only_appended: len(result.String()) >= len(old(result.String())) && sameseq(result.String()[0:len(old(result.String()))], old(result.String()))
@@ -117,7 +116,6 @@ package htmldoc
 //@ spec func blockTag(s string) bool = s == "div" || s == "p" || s == "ul" || s == "ol" || s == "table" || s == "h1" || s == "h2" || s == "h3" || s == "h4" || s == "h5" || s == "h6" || s == "blockquote" || s == "pre" || s == "article" || s == "section" || s == "main" || s == "header" || s == "footer" || s == "nav" || s == "aside"
 //@ func isBlockContainer results (r)
 //@   property C19
-//@   flags nosafety
 //@   atreturn#1 only_a_block_level_child_makes_a_container: c.Type == html.ElementNode && blockTag(c.Data)
 //@   loop 0:
 //@     step a_block_level_child_ends_the_search: !isnil(prev(c)) ==> !(prev(c).Type == html.ElementNode && blockTag(prev(c).Data))
@@ -126,7 +124,6 @@ package htmldoc
 //@ spec rec prefix func htmlcellcount(rows [][]TableCell, n int) int = n <= 0 ? 0 : htmlcellcount(rows, n - 1) + len(rows[n-1])
 //@ func (*ParsedTable) ToMarkdown results (res)
 //@   property C19, C15
-//@   flags nosafety
 //@   count cells: escapeMarkdown(s) when true
 //@   callsite escapeMarkdown#1(s) requires first_row_cell_in_place: s == t.Rows[0][$i].Text
 //@   callsite escapeMarkdown#2(s) requires data_cell_in_place: s == t.Rows[i][$i].Text
@@ -159,7 +156,6 @@ package htmldoc
 //@   flags pure, trusted
 //@ func OpenReader results (rd, err)
 //@   property C02
-//@   flags nosafety
 //@   callsite extractHead(d) requires depth_checked_before_the_recursive_walks: !treeDepthExceeds(d, maxTreeDepth)
 //@   callsite extractBody(d) requires depth_checked_before_the_recursive_walks: !treeDepthExceeds(d, maxTreeDepth)
 
@@ -167,7 +163,6 @@ package htmldoc
 // through getTextContent, block children skipped - and the walk goes on after a block child ----
 //@ func getDirectTextContent results (res)
 //@   property C19
-//@   flags nosafety
 //@   loop 0:
 //@     exhaustive
 //@     step text_node_appended_verbatim: !isnil(prev(c)) && prev(c).Type == html.TextNode ==> sameseq(result.String(), prev(result.String()) + prev(c).Data)
@@ -182,7 +177,6 @@ package htmldoc
 //@   flags pure, trusted
 //@ func (*Reader) parseTableRow results (res)
 //@   property C19
-//@   flags nosafety
 //@   loop 0:
 //@     exhaustive
 //@     step cell_text_is_the_whole_text_of_the_cell: !isnil(prev(c)) && prev(c).Type == html.ElementNode && (prev(c).Data == "td" || prev(c).Data == "th") ==> len(row) == prev(len(row)) + 1 && row[len(row)-1].Text == strings.TrimSpace(getTextContent(prev(c)))
@@ -195,6 +189,5 @@ package htmldoc
 // such a div are article-level content and are kept ----
 //@ func detectTopLevelWrapper results (res)
 //@   property C19
-//@   flags nosafety
 //@   loop 0:
 //@     step the_scan_never_goes_past_another_element: isnil(prev(c)) || !(prev(c).Type == html.ElementNode && prev(c).Data != "div" && prev(c).Data != "main" && prev(c).Data != "script" && prev(c).Data != "style" && prev(c).Data != "noscript" && prev(c).Data != "template")
